@@ -466,18 +466,21 @@ def run(chk: Check) -> None:
             reps[norm(n.args[0])] = norm(n.args[1])
         if isinstance(n, ast.Call) and norm(n.func) == 'yaml.add_constructor' and len(n.args) == 2:
             cons[norm(n.args[1])] = prog.fold(mod, n.args[0])
-    br = mod.functions.get('_bundle_representer')
-    bc = mod.functions.get('_bundle_constructor')
+    def _fn(name):   # (defined here or imported from a helper module of the package)
+        r_ = prog.resolve(mod, ast.Name(id=name, ctx=ast.Load()))
+        return r_ if isinstance(r_, FuncInfo) else None
+    br = _fn('_bundle_representer')
+    bc = _fn('_bundle_constructor')
     chk.need(br is not None and bc is not None, 'bundle representer / constructor not found')
-    tag_rep = [prog.fold(mod, c.args[0]) for c in calls_in_func(br, 'represent_mapping')]
+    tag_rep = [prog.fold(br.module, c.args[0]) for c in calls_in_func(br, 'represent_mapping')]
     ok = reps.get('Bundle') == '_bundle_representer' and cons.get('_bundle_constructor') is not None and tag_rep == [cons.get('_bundle_constructor')]
     chk.ob('TAB-yaml', 'persistence._bundle_representer', ok, f'Bundle is represented under the tag its constructor is registered for ({tag_rep} / {cons.get("_bundle_constructor")})',
            kind='bundle-tag')
     ok = any(norm(c.func) == 'Bundle.__new__' for c in calls_in_func(bc)) and any(last_name(c) == 'update' for c in calls_in_func(bc))
     chk.ob('TAB-yaml', 'persistence._bundle_constructor', ok, 'the constructor rebuilds a Bundle and fills it with the mapping', kind='bundle-constructor')
-    ur, uc = mod.functions.get('uuid_representer'), mod.functions.get('uuid_constructor')
+    ur, uc = _fn('uuid_representer'), _fn('uuid_constructor')
     if ur is not None and uc is not None:
-        tag = [prog.fold(mod, c.args[0]) for c in calls_in_func(ur, 'represent_scalar')]
+        tag = [prog.fold(ur.module, c.args[0]) for c in calls_in_func(ur, 'represent_scalar')]
         chk.ob('TAB-yaml', 'persistence.uuid_representer', reps.get('uuid.UUID') == 'uuid_representer' and tag == [cons.get('uuid_constructor')],
                f'uuid values (default pids) round-trip through YAML under one tag ({tag})', kind='uuid-tag')
     # every YAML representer the package registers, anywhere: what it writes is read back as the same type -- it emits a TAG for which a constructor is registered.  A
@@ -496,11 +499,12 @@ def run(chk: Check) -> None:
             if norm(n.args[1]).startswith('yaml.') and norm(n.args[1]).endswith('.represent_name'):
                 continue   # PyYAML's own name representer (classes by qualified name): written and read back by the library's python/name tag
             n_rep += 1
-            rf = m_.functions.get(norm(n.args[1]))
+            rf = prog.resolve(m_, n.args[1]) if isinstance(n.args[1], (ast.Name, ast.Attribute)) else None
+            rf = rf if isinstance(rf, FuncInfo) else None
             tags, plain = [], True
             if rf is not None:
                 tagged = [c for c in calls_in_func(rf) if last_name(c) in ('represent_scalar', 'represent_mapping', 'represent_sequence') and c.args]
-                tags = [prog.fold(m_, c.args[0]) for c in tagged]
+                tags = [prog.fold(rf.module, c.args[0]) for c in tagged]
                 plain = not tagged or any(last_name(c) in ('represent_dict', 'represent_list', 'represent_str', 'represent_data', 'represent_set') for c in calls_in_func(rf))
             ok = rf is not None and not plain and all(isinstance(t_, str) and t_ in all_cons for t_ in tags)
             chk.ob('TAB-yaml', f'{m_.short}.{norm(n.args[1])}', ok, f'values of {norm(n.args[0])} are written to YAML under a tag that a registered constructor reads back (tags {tags}; constructors {sorted(all_cons)})'
